@@ -1,16 +1,14 @@
 #!/bin/sh
-# usage: try_seed.sh <patch.diff> <tier> <ID> [<ID>...]
-# applies a seeded change to /repo, runs the named checks, reverts /repo; prints one line per check
-P=$1; T=$2; shift 2
+# usage: try_seed.sh <seed-name> <tier> <ID> [<ID>...]
+# Runs the named checks against a scratch worktree of /repo HEAD with /verif/seeded/<seed-name>/patch.diff applied
+# (equivalent to applying it to /repo, but leaves /repo and the committed evidence untouched). One line per check.
+N=$1; T=$2; shift 2
+W=/tmp/seedrepo-$N; O=/tmp/seedout-$N
+rm -rf $W $O; /verif/tools/mkworktree.sh $W >/dev/null || exit 2
+git -C $W apply /verif/seeded/$N/patch.diff 2>/dev/null || { echo "SEED $N: patch does not apply"; git -C /repo worktree remove --force $W; exit 2; }
 cd /verif
-git -C /repo diff --quiet || { echo "repo dirty"; exit 2; }
-git -C /repo apply "$P" || { echo "patch does not apply: $P"; exit 2; }
 for id in "$@"; do
-  out=$(./check $id $T 2>&1); rc=$?
-  echo "SEED $(basename $(dirname $P))/$(basename $P) check=$id tier=$T rc=$rc $(echo "$out" | grep -c '^VIOLATION') violation-lines; first: $(echo "$out" | grep '^VIOLATION' | head -1 | cut -c1-220)"
+  out=$(VERIF_REPO=$W VERIF_OUT=$O ./check $id $T 2>&1); rc=$?
+  echo "SEED $N check=$id tier=$T rc=$rc :: $(echo "$out" | grep '^VIOLATION' | head -1 | sed 's/.*signature=//' | cut -c1-160)"
 done
-git -C /repo checkout -- .
-# evidence and replays produced against a mutated tree are not kept
-git -C /verif checkout -- evidence 2>/dev/null
-git -C /verif clean -fdq replays 2>/dev/null
-exit 0
+git -C /repo worktree remove --force $W; rm -rf $O
